@@ -23,6 +23,7 @@ RULE = ("(1) invocations 'ofxget stmt <nick> ...' where every configurable optio
         "every (option x winning source) pair is covered each run; values: URLs with URL-legal characters incl. % : = ? & ~, identifiers, integers, "
         "booleans (CLI can only set True), account lists of length 0-6; (2) histories of 2-5 runs on one ofxget.cfg: write runs (real main() "
         "against the fake server), plain runs, dry runs with --write. A case = one invocation or one history")
+RULE += " Added later: histories over stmt / stmtend / prof / acctinfo / tax1099, '--all --write' runs, a preset default CLIENTUID with no section for the nickname, saved account lists given again in another order, a --write for another nickname in between."
 ASSUMPTIONS = ["the built-in default of an option is whatever ofxget.DEFAULTS says; None and '' both mean 'unset' for string options",
                "'in effect' is judged twice: on the merged option mapping and on the request actually built (dry-run output / what the fake server received: version, format flags, identifiers; unset identifiers and the user id of profile requests are not compared)",
                "UNSPECIFIED, not generated: empty-string CLI values; account numbers containing , ' [ ]; values in the user file's [DEFAULT] section other than the generated clientuid",
